@@ -17,13 +17,15 @@ LEVEL_TEXT = ("Bounded contract checking by single-fault mutation: every valid g
               "programs) is subjected to each fault class the statement lists; the construction or the start of "
               "run/map must raise, no user function may have been invoked, and a run folder populated by a previous "
               "valid run and opened with cleanup=False must be byte-for-byte unchanged afterwards. The validators "
-              "walk networkx graphs and numpy shapes; no obligation is counted as proved here (the MapSpec.shape "
-              "rank/zip checks are covered deductively/bounded under C08).")
+              "walk networkx graphs and numpy shapes and are decided on the bounded rung (the MapSpec.shape "
+              "rank/zip checks are covered under C08). Proved part (pyvc): validate_unique_output_names (raises "
+              "exactly when the new output name is already taken). Category 'other' = that leaf contract + bounded "
+              "fault-class checking; it is not a proof of C12.")
 LEVEL_NOTE = ("Fault classes: duplicate output, output named like own parameter, cycle, inconsistent defaults, "
               "MapSpec/signature mismatch, inconsistent axes between MapSpecs, missing input, surplus input, wrong "
               "rank, zipped dimension mismatch, unknown storage, executor with parallel=False. Trusted: the generators' "
               "notion of a valid case (checked by C01/C02).")
-TECHNIQUE = "bounded single-fault mutation contract checking (no deductive part)"
+TECHNIQUE = "bounded single-fault mutation contract checking; leaf validate_unique_output_names discharged by z3"
 EXPLANATION = LEVEL_TEXT
 RULE = ("valid case x fault class; distinct = distinct (case, fault); non-trivial = every case (each is a faulty request "
         "that must be rejected)")
